@@ -66,15 +66,17 @@ type Result struct {
 }
 
 type Ctx struct {
-	Check   *Check
-	Tier    string
-	Shard   int
-	NShards int
-	Seed    int64
-	start   time.Time
-	budget  time.Duration
-	mu      sync.Mutex
-	res     Result
+	Check     *Check
+	Tier      string
+	Shard     int
+	NShards   int
+	Seed      int64
+	start     time.Time
+	budget    time.Duration
+	mu        sync.Mutex
+	waitEpoch int64
+	childWait int // processes this worker waits for (they are watched themselves); guarded by mu
+	res       Result
 }
 
 const (
@@ -373,7 +375,19 @@ func Main(checks map[string]*Check) {
 		}
 
 		c := newCtx(ch, tier, 0, 1)
+		stop := startWatchdog(c, func(site, stack string, idle time.Duration) {
+			if site == "" {
+				hangAsCrash(site, stack, idle)
+			}
+
+			b, _ := json.Marshal(map[string]string{"signature": "hung-in-heimdall-code/" + site,
+				"summary": fmt.Sprintf("no progress and no processor use for %s; a goroutine waits for a lock that is never released:\n%s", idle.Round(time.Second), firstLines(stack, 14))})
+			fmt.Printf("RACEPASS-VIOLATION %s\n", b)
+			fmt.Printf("RACEPASS-EXECUTIONS %d\n", c.res.Evaluations)
+			os.Exit(0)
+		})
 		ch.RacePass(c)
+		stop()
 		fmt.Printf("RACEPASS-EXECUTIONS %d\n", c.res.Evaluations)
 
 		// violations the pass itself found (observations of the concurrent executions that differ from the sequential
@@ -395,7 +409,9 @@ func Main(checks map[string]*Check) {
 
 	if *shard >= 0 {
 		c := newCtx(ch, *tier, *shard, *nshards)
+		stop := startWatchdog(c, hangAsCrash)
 		ch.Run(c)
+		stop()
 		writePartial(*partial, &c.res)
 
 		return
@@ -449,8 +465,13 @@ func Main(checks map[string]*Check) {
 					// because the implementation crashed where the harness calls it like production does: that is a
 					// finding about the implementation, not an infrastructure problem
 					if site := crashSite(tail.String()); site != "" {
+						kind := "worker-crashed-in-heimdall-code/"
+						if strings.Contains(tail.String(), watchdogMark) {
+							kind = "worker-hung-in-heimdall-code/"
+						}
+
 						crashes[i] = &Violation{
-							Signature: "worker-crashed-in-heimdall-code/" + site,
+							Signature: kind + site,
 							Summary:   "shard " + fmt.Sprint(i) + " died: " + firstLines(tail.String(), 12),
 							Replay:    json.RawMessage(`{"worker_crash":true}`),
 						}
@@ -546,6 +567,10 @@ func crashSite(stderr string) string {
 			continue
 		}
 
+		if strings.Contains(line, "/verifshim/") && strings.Contains(stderr, watchdogMark) {
+			continue
+		}
+
 		if strings.HasPrefix(line, "github.com/dadrus/heimdall/verif/") || strings.Contains(line, "/verifshim/") ||
 			strings.Contains(line, ".Verif") {
 			return ""
@@ -563,7 +588,9 @@ func crashSite(stderr string) string {
 }
 
 func firstLines(s string, n int) string {
-	if i := strings.LastIndex(s, "panic: "); i >= 0 {
+	if i := strings.LastIndex(s, watchdogMark); i >= 0 {
+		s = s[i:]
+	} else if i := strings.LastIndex(s, "panic: "); i >= 0 {
 		s = s[i:]
 	}
 
@@ -891,7 +918,11 @@ func RunRacePass(c *Ctx) {
 	cmd.Stderr = &stderr
 	cmd.Stdout = &stdout
 
+	// the pass has a watchdog of its own; this worker only waits for it
+	c.AwaitingChild(true)
 	err := cmd.Run()
+	c.AwaitingChild(false)
+
 	out := stderr.String()
 
 	n := int64(0)
